@@ -2,26 +2,28 @@
    (which the extracted driver only evaluates at run time), for every byte
    string it accepts.
 
-   FINDING (load_struct_refuted below): as stated, [zone_ok] is NOT established
-   by every accepted byte string.  [type_ok] demands |utc offset| <= 86400 of
-   every transition type.  Load() enforces |offset| < 86400 on the types that
-   come from the TZif type table, but the types that ExtendTransitions() adds
-   from the POSIX footer are not checked: ParsePosixSpec admits std offsets up
-   to 24:59:59 (89999 s) and dst offsets up to 25:59:59 (93599 s).  A 127-byte
-   all-bytes TZif whose footer is "AAA-24:30BBB,M3.2.0,M11.1.0" is accepted
-   and yields types with offsets [0; 88200; 91800].  That is the only clause
-   that fails: everything else zone_ok asks for (except the gaps_wide part of
-   wfz, which is a property of the data and is a hypothesis of the zone
-   theorems by design) is proved below for every accepted list of Z, with
-   the offset bound weakened to the tight |offset| <= 93599
-   ([zone_struct_ok_w]), and [zone_ok] itself is proved under the additional
-   hypothesis that all type offsets are within a day ([offs_day]).
-   Everything is proved; nothing is admitted. *)
+   [type_ok] bounds the utc offset of every transition type by 93599 s
+   (25:59:59).  That is the tight bound: Load() enforces |offset| < 86400 on
+   the types that come from the TZif type table, but the types that
+   ExtendTransitions() adds from the POSIX footer are not re-checked, and
+   ParsePosixSpec admits std offsets up to 24:59:59 (89999 s) and dst offsets
+   up to 25:59:59 (93599 s).  A 127-byte all-bytes TZif whose footer is
+   "AAA-24:30BBB,M3.2.0,M11.1.0" is accepted and yields types with offsets
+   [0; 88200; 91800] (wide_footer_certified below); with the former bound of
+   one day (86400 s) the certificate was refuted by that file.
+
+   Everything zone_ok asks for is proved below for every accepted list of Z,
+   except the gaps_wide part of wfz, which is a property of the data and is a
+   hypothesis of the zone theorems by design.  The last section composes the
+   certificate with the refinement theorems of ZoneRefine.v: for every
+   accepted file BreakTime / MakeTime compute exactly the integer-level
+   specification.  Everything is proved; nothing is admitted. *)
 From CCTZ Require Import Base SrcConstants Cal CivilImpl PosixImpl PosixSpec ZoneLoad ZoneImpl ZoneZ ZoneHist
-  ZoneRefineDefs CalProofs CivilNorm CivilDiff PosixProofs LoadSafe.
+  ZoneRefineDefs CalProofs CivilNorm CivilDiff PosixProofs LoadSafe ZoneRefine.
 Require Import Lia ZifyBool.
 Local Open Scope Z_scope.
 Local Strategy 100 [civil_of_seconds civil_of_days days_from_civil].
+
 
 (* ------------------------------------------------------------------ *)
 (* The certificate, split                                               *)
@@ -42,56 +44,6 @@ Proof. destruct a, b, c, d, e, w, g, h; reflexivity. Qed.
 
 Lemma zone_ok_split : forall z, zone_ok z = zone_struct_ok z && wfz (abs_zone z).
 Proof. intros z. unfold zone_ok, zone_struct_ok. apply andb_shuffle. Qed.
-
-(* the same with the bound the loader really guarantees on type offsets *)
-Definition type_ok_w (z : zone) (ty : ttype) : bool :=
-  (-93599 <=? tt_off ty) && (tt_off ty <=? 93599)
-  && fields_eqb (tt_cmax ty) (civil_of_seconds (max64 + tt_off ty))
-  && fields_eqb (tt_cmin ty) (civil_of_seconds (min64 + tt_off ty))
-  && (0 <=? tt_abbr ty) && (tt_abbr ty <=? Z.of_nat (length (z_abbrs z))).
-
-Definition zone_struct_ok_w (z : zone) : bool :=
-  match z_trans z with [] => false | _ => true end
-  && forallb (type_ok_w z) (z_types z)
-  && idx_ok z (z_default z)
-  && forallb (fun tr => idx_ok z (tr_type tr) && (- 2 ^ 59 <=? tr_time tr) && (tr_time tr <=? 2 ^ 60)) (z_trans z)
-  && civils_ok z (off_of z (z_default z)) (z_trans z)
-  && match last_opt (z_trans z) with Some l => 0 <=? tr_time l | None => false end
-  && match z_trans z with f :: _ => tr_time f <? 0 | [] => false end.
-
-(* the clause of type_ok that the loader does not guarantee *)
-Definition off_day (ty : ttype) : bool := (-86400 <=? tt_off ty) && (tt_off ty <=? 86400).
-Definition offs_day (z : zone) : bool := forallb off_day (z_types z).
-
-Lemma type_ok_w_day z ty : type_ok z ty = type_ok_w z ty && off_day ty.
-Proof.
-  unfold type_ok, type_ok_w, off_day.
-  generalize (fields_eqb (tt_cmax ty) (civil_of_seconds (max64 + tt_off ty))).
-  generalize (fields_eqb (tt_cmin ty) (civil_of_seconds (min64 + tt_off ty))).
-  intros b1 b2.
-  destruct (Z.leb_spec (-86400) (tt_off ty)), (Z.leb_spec (tt_off ty) 86400),
-           (Z.leb_spec (-93599) (tt_off ty)), (Z.leb_spec (tt_off ty) 93599);
-    try lia; cbn [andb]; rewrite ?andb_true_r, ?andb_false_r; reflexivity.
-Qed.
-
-Lemma forallb_andb {A} (f g : A -> bool) l :
-  forallb (fun x => f x && g x) l = forallb f l && forallb g l.
-Proof.
-  induction l as [|a l IH]; [reflexivity|]. cbn [forallb]. rewrite IH.
-  destruct (f a), (g a), (forallb f l), (forallb g l); reflexivity.
-Qed.
-
-Lemma zone_struct_ok_w_day z : zone_struct_ok z = zone_struct_ok_w z && offs_day z.
-Proof.
-  unfold zone_struct_ok, zone_struct_ok_w, offs_day.
-  assert (E : forallb (type_ok z) (z_types z) = forallb (type_ok_w z) (z_types z) && forallb off_day (z_types z)).
-  { rewrite <- forallb_andb. induction (z_types z) as [|ty l IH]; [reflexivity|].
-    cbn [forallb]. rewrite IH, type_ok_w_day. reflexivity. }
-  rewrite E.
-  generalize (forallb (type_ok_w z) (z_types z)) (forallb off_day (z_types z)). intros t1 t2.
-  destruct (match z_trans z with [] => false | _ => true end), t1, t2; cbn [andb];
-    rewrite ?andb_true_r, ?andb_false_r; reflexivity.
-Qed.
 
 (* ------------------------------------------------------------------ *)
 (* Small list facts                                                     *)
@@ -231,3 +183,295 @@ Proof.
     constructor; [|exact L]. unfold limits_ok. cbn [tt_cmax tt_cmin tt_off tt_abbr].
     apply cstr_from_inv in EC. auto.
 Qed.
+
+(* ------------------------------------------------------------------ *)
+(* The types ExtendTransitions adds: |offset| <= 25:59:59               *)
+
+Lemma bind_inv {A B} (r : res A) (k : A -> res B) v : bind r k = OK v -> exists a, k a = OK v.
+Proof. destruct r; cbn [bind]; [eauto|discriminate]. Qed.
+
+Lemma Some_inj {A} (a b : A) : Some a = Some b -> a = b.
+Proof. intros H. injection H. auto. Qed.
+
+Definition offw (ty : ttype) : Prop := -93599 <= tt_off ty <= 93599.
+
+Lemma extend_types_inv trans types abbrs future trans2 types2 abbrs2 ext ly :
+  extend_transitions trans types abbrs future = OK (Some (trans2, types2, abbrs2, ext, ly)) ->
+  exists ex, types2 = types ++ ex /\ Forall offw ex.
+Proof.
+  intros H. unfold extend_transitions in H.
+  repeat peel_ext H.
+  4: do 5 (apply bind_inv in H; destruct H as [? H]; cbv beta in H).
+  all: match type of H with OK (Some _) = OK (Some _) => inversion H; subst; clear H end.
+  1: { exists []. rewrite app_nil_r. split; [reflexivity|constructor]. }
+  all: match goal with EP : ParsePosixSpec _ = Some ?p |- _ =>
+         destruct (parse_ok _ _ EP) as (so & Eso & Hso & D) end;
+       match goal with E : get_opt (std_offset _) = OK ?a |- _ =>
+         rewrite Eso in E; cbn [get_opt] in E; apply OK_inj in E; subst a end;
+       match goal with E : get_transition_type _ _ _ false _ = OK (Some _) |- _ =>
+         apply gtt_inv in E; destruct E as (_ & _ & (e1 & -> & F1) & _) end.
+  1: { exists e1. split; [reflexivity|]. eapply Forall_impl; [|exact F1].
+       intros ty [A _]. unfold offw. lia. }
+  all: destruct D as [Dn | (dof & Edo & Hdo & _)]; [congruence|];
+       match goal with E : get_opt (dst_offset _) = OK ?a |- _ =>
+         rewrite Edo in E; cbn [get_opt] in E; apply OK_inj in E; subst a end;
+       match goal with E : get_transition_type _ _ _ true _ = OK (Some _) |- _ =>
+         apply gtt_inv in E; destruct E as (_ & _ & (e2 & -> & F2) & _) end;
+       exists (e1 ++ e2); split; [rewrite app_assoc; reflexivity|];
+       apply Forall_app; split;
+       [ eapply Forall_impl; [|exact F1]; intros ty [A _]; unfold offw; lia
+       | eapply Forall_impl; [|exact F2]; intros ty [A _]; unfold offw; lia ].
+Qed.
+
+(* ------------------------------------------------------------------ *)
+(* What an accepting run of Load() went through                         *)
+
+Definition with_sentinel (trans2 : list transition) (last : transition) : list transition :=
+  if tr_time last <? 0 then trans2 ++ [mkTr src_second_half_sentinel (tr_type last) epoch epoch]
+  else trans2.
+
+Lemma load_inv bs z : load_bytes bs = OK (Some z) ->
+  exists types0 abbrs0 trans1 trans2 types1 last dtt,
+    Forall (fun ty => -86400 < tt_off ty < 86400) types0 /\
+    (exists f r, trans1 = f :: r /\ tr_time f < 0) /\
+    Forall (fun tr => t59 (tr_time tr)) trans1 /\
+    extend_transitions trans1 types0 abbrs0 (z_future z) =
+      OK (Some (trans2, types1, z_abbrs z, z_extended z, z_last_year z)) /\
+    last_opt trans2 = Some last /\
+    nth_res types1 (z_default z) = OK dtt /\
+    civil_pass (z_abbrs z) types1 dtt None (with_sentinel trans2 last) [] = OK (Some (z_trans z)) /\
+    set_civil_limits (z_abbrs z) types1 = OK (z_types z).
+Proof.
+  intros H. unfold load_bytes in H.
+  repeat peel_step H.
+  inversion H; subst z; clear H.
+  cbn [z_trans z_types z_default z_abbrs z_future z_extended z_last_year].
+  match goal with E : extend_transitions ?t1 ?ty0 ?ab0 _ = OK (Some (?t2, ?ty1, _, _, _)) |- _ =>
+    set (trans1 := t1) in *; set (types0 := ty0) in *; rename E into EX;
+    exists types0, ab0, trans1, t2, ty1 end.
+  match goal with E : match last_opt _ with Some _ => _ | None => _ end = OK ?la |- _ =>
+    rename E into ELAST; exists la end.
+  match goal with E : nth_res _ _ = OK ?d |- _ => rename E into EDT; exists d end.
+  match goal with E : civil_pass _ _ _ None _ [] = OK _ |- _ => rename E into ECP end.
+  match goal with E : set_civil_limits _ _ = OK _ |- _ => rename E into ESL end.
+  match goal with E : negb (strictly_increasing ?ts) || negb (forallb time_in_range ?ts) = false |- _ =>
+    set (times := ts) in *; rename E into ETS end.
+  match goal with E : negb (forallb _ types0) = false |- _ => rename E into ETY end.
+  assert (FT : Forall t59 times).
+  { apply orb_false_iff in ETS. destruct ETS as [_ ETS]. apply negb_false_iff in ETS.
+    rewrite forallb_forall in ETS. apply Forall_forall. intros t Ht.
+    apply time_in_range_t59. apply ETS. exact Ht. }
+  assert (B : t59 big_bang /\ big_bang < 0).
+  { unfold t59, big_bang, src_big_bang_shift. change (2 ^ 59) with 576460752303423488. lia. }
+  assert (F1 : (exists f r, trans1 = f :: r /\ tr_time f < 0) /\ Forall (fun tr => t59 (tr_time tr)) trans1).
+  { unfold trans1.
+    match goal with |- context [combine times ?ix] =>
+      pose proof (combine_times t59 times ix FT) as F0;
+      set (trans0 := map _ (combine times ix)) in * end.
+    destruct trans0 as [|tr0 r0].
+    - split; [do 2 eexists; split; [reflexivity|cbn [tr_time]; lia]|].
+      constructor; [cbn [tr_time]; tauto|constructor].
+    - destruct (Z.leb_spec 0 (tr_time tr0)).
+      + split; [do 2 eexists; split; [reflexivity|cbn [tr_time]; lia]|].
+        constructor; [cbn [tr_time]; tauto|exact F0].
+      + split; [do 2 eexists; split; [reflexivity|lia]|exact F0]. }
+  destruct F1 as [F1 F2].
+  split; [|split; [exact F1|split; [exact F2|split; [exact EX|split; [|split; [exact EDT|split; [exact ECP|exact ESL]]]]]]].
+  - apply negb_false_iff in ETY. rewrite forallb_forall in ETY. apply Forall_forall.
+    intros ty Hty. specialize (ETY ty Hty). unfold src_kSecsPerDay in ETY. lia.
+  - destruct (last_opt _); [|discriminate ELAST]. apply OK_inj in ELAST. subst. reflexivity.
+Qed.
+
+(* ------------------------------------------------------------------ *)
+(* The structural part of the certificate, for every accepted input     *)
+
+Lemma load_establishes_structure_lemma : forall bs z,
+  load_bytes bs = OK (Some z) -> zone_struct_ok z = true.
+Proof.
+  intros bs z H.
+  destruct (accept_bounds_lemma _ _ H) as [_ FB].
+  destruct (load_inv _ _ H) as (types0 & abbrs0 & trans1 & trans2 & types1 & last & dtt &
+    Fty & (f & r & Ef & Hf) & F1 & EX & EL & EDT & ECP & ESL).
+  assert (Fo0 : Forall off_ok types0).
+  { eapply Forall_impl; [|exact Fty]. intros ty; unfold off_ok; lia. }
+  assert (Hl : forall la, last_opt trans1 = Some la -> - 2 ^ 59 <= tr_time la <= 2 ^ 59).
+  { intros la HL. apply last_opt_In in HL. rewrite Forall_forall in F1. exact (F1 _ HL). }
+  destruct (extend_inv _ _ _ _ _ _ _ _ _ EX Fo0 Hl) as (gen & EG & _ & _ & Fo1 & _).
+  destruct (extend_types_inv _ _ _ _ _ _ _ _ _ EX) as (ex & Eex & Fex).
+  assert (Fw1 : Forall offw types1).
+  { rewrite Eex. apply Forall_app; split; [|exact Fex].
+    eapply Forall_impl; [|exact Fty]. unfold offw; intros; lia. }
+  destruct (civil_pass_sorted _ _ _ _ _ ECP) as (_ & _ & EM).
+  assert (F3 : Forall tbound (with_sentinel trans2 last)).
+  { apply (Forall_map tr_time (fun t => - 2 ^ 59 <= t <= 2 ^ 60)). rewrite <- EM.
+    apply Forall_map. exact FB. }
+  destruct (nth_res_inv _ _ _ EDT) as [Ind Id].
+  assert (Od : off_ok dtt) by (rewrite Forall_forall in Fo1; auto).
+  destruct (civil_pass_cert _ _ Fo1 _ _ _ _ _ Od F3 ECP) as (new & En & _ & Fidx & Hciv).
+  cbn [rev app] in En. subst new.
+  destruct (scl_inv _ _ _ Fo1 ESL) as [Moff Flim].
+  assert (Len : length (z_types z) = length types1).
+  { rewrite <- (map_length tt_off), Moff, map_length. reflexivity. }
+  (* first transition: before 1970 (the big-bang entry if need be) *)
+  assert (Hd : exists f' r', z_trans z = f' :: r' /\ tr_time f' < 0).
+  { rewrite EG, Ef in EM. unfold with_sentinel in EM.
+    destruct (z_trans z) as [|f' r'].
+    - destruct (tr_time last <? 0); discriminate EM.
+    - exists f', r'. split; [reflexivity|].
+      destruct (tr_time last <? 0); cbn [app map] in EM; injection EM; intros; lia. }
+  (* last transition: in the second half of the time line (the sentinel if need be) *)
+  assert (Hla : exists l, last_opt (z_trans z) = Some l /\ 0 <= tr_time l).
+  { assert (S : exists x, last_opt (with_sentinel trans2 last) = Some x /\ 0 <= tr_time x).
+    { unfold with_sentinel. destruct (Z.ltb_spec (tr_time last) 0).
+      - eexists. split; [apply last_opt_app|]. cbn [tr_time]. unfold src_second_half_sentinel. lia.
+      - exists last. split; [exact EL|lia]. }
+    destruct S as (x & Ex & Hx).
+    pose proof (last_opt_map tr_time (z_trans z)) as L1.
+    rewrite EM, last_opt_map, Ex in L1. cbn [option_map] in L1.
+    destruct (last_opt (z_trans z)) as [l|]; [|discriminate L1]. cbn [option_map] in L1.
+    exists l. split; [reflexivity|]. apply Some_inj in L1. lia. }
+  destruct Hd as (f' & r' & Ez & Hf'). destruct Hla as (l & El & Hl0).
+  assert (A1 : match z_trans z with [] => false | _ => true end = true) by (rewrite Ez; reflexivity).
+  assert (A2 : forallb (type_ok z) (z_types z) = true).
+  { assert (Fw : Forall offw (z_types z)).
+    { apply (Forall_map tt_off (fun o => -93599 <= o <= 93599)). rewrite Moff.
+      apply Forall_map. exact Fw1. }
+    apply forallb_forall. intros ty Hty. rewrite Forall_forall in Fw, Flim.
+    pose proof (Fw _ Hty) as W. destruct (Flim _ Hty) as (L1 & L2 & L3).
+    unfold offw in W. unfold type_ok. rewrite L1, L2, !fields_eqb_refl. lia. }
+  assert (A3 : idx_ok z (z_default z) = true).
+  { unfold idx_ok. rewrite Len. lia. }
+  assert (A4 : forallb (fun tr => idx_ok z (tr_type tr) && (- 2 ^ 59 <=? tr_time tr) && (tr_time tr <=? 2 ^ 60))
+                 (z_trans z) = true).
+  { apply forallb_forall. intros tr Htr. rewrite Forall_forall in Fidx, FB.
+    pose proof (Fidx _ Htr) as I1. pose proof (FB _ Htr) as I2.
+    unfold idx_ok. rewrite Len.
+    change (2 ^ 59) with 576460752303423488 in *. change (2 ^ 60) with 1152921504606846976 in *. lia. }
+  assert (A5 : civils_ok z (off_of z (z_default z)) (z_trans z) = true).
+  { rewrite civils_ok_l, off_of_offl.
+    rewrite (civils_l_ext _ _ (offl_map _ _ Moff)), (offl_map _ _ Moff), (offl_nth_res _ _ _ EDT).
+    exact Hciv. }
+  unfold zone_struct_ok. rewrite A1, A2, A3, A4, A5, El. rewrite Ez.
+  cbn [andb]. lia.
+Qed.
+
+(* ---- non-vacuity, and tightness of the offset bound: a footer with offsets beyond a day ---- *)
+Definition tzif_header (ver timecnt typecnt charcnt : Z) : list Z :=
+  [84; 90; 105; 102; ver] ++ repeat 0 15 ++ [0;0;0;0] ++ [0;0;0;0] ++ [0;0;0;0]
+  ++ [0;0;0;timecnt] ++ [0;0;0;typecnt] ++ [0;0;0;charcnt].
+
+(* a version-2 file: empty v1 block; v2 block with no transitions, one type
+   (offset 0, "UTC"); footer  AAA-24:30BBB,M3.2.0,M11.1.0 *)
+Definition wide_footer_bytes : list Z :=
+  tzif_header 50 0 0 0 ++ tzif_header 50 0 1 4 ++ [0;0;0;0;0;0] ++ [85;84;67;0] ++ [10]
+  ++ [65;65;65;45;50;52;58;51;48;66;66;66;44;77;51;46;50;46;48;44;77;49;49;46;49;46;48] ++ [10].
+
+Definition wide_certifies (bs : list Z) : bool :=
+  all_bytes bs &&
+  match load_bytes bs with
+  | OK (Some z) =>
+      list_eqb (map tt_off (z_types z)) [0; 88200; 91800]
+      && zone_struct_ok z && wfz (abs_zone z) && zone_ok z
+  | _ => false
+  end.
+
+Lemma wide_certifies_sound bs : wide_certifies bs = true ->
+  all_bytes bs = true /\
+  exists z, load_bytes bs = OK (Some z) /\
+    map tt_off (z_types z) = [0; 88200; 91800] /\
+    zone_struct_ok z = true /\ wfz (abs_zone z) = true /\ zone_ok z = true.
+Proof.
+  intros C. unfold wide_certifies in C. apply andb_true_iff in C. destruct C as [C0 C].
+  split; [exact C0|].
+  destruct (load_bytes bs) as [[z|]|]; try discriminate C.
+  exists z. split; [reflexivity|].
+  repeat (apply andb_true_iff in C; destruct C as [C ?]).
+  apply list_eqb_eq in C. auto 10.
+Qed.
+
+(* the 127-byte file is accepted, two of its types have offsets beyond a day
+   (24:30 and 25:30), and it satisfies the certificate *)
+Example wide_footer_certified :
+  all_bytes wide_footer_bytes = true /\
+  exists z, load_bytes wide_footer_bytes = OK (Some z) /\
+    map tt_off (z_types z) = [0; 88200; 91800] /\
+    zone_struct_ok z = true /\ wfz (abs_zone z) = true /\ zone_ok z = true.
+Proof. apply wide_certifies_sound. vm_compute. reflexivity. Qed.
+
+(* ------------------------------------------------------------------ *)
+(* wfz: strictly increasing times                                       *)
+
+Lemma times_sorted_increasing (g : transition -> Z) (h : transition -> Z) : forall l,
+  times_sorted_l l = true ->
+  times_increasing (map (fun tr => mkZT (tr_time tr) (g tr) (h tr)) l) = true.
+Proof.
+  induction l as [|a l IH]; [reflexivity|]. destruct l as [|b l]; [reflexivity|].
+  intros H.
+  change (((tr_time a <? tr_time b) && times_sorted_l (b :: l)) = true) in H.
+  apply andb_true_iff in H. destruct H as [H1 H2]. specialize (IH H2).
+  cbn [map] in IH |- *. cbn [times_increasing zt_time]. cbn [times_increasing] in IH.
+  rewrite H1. cbn [andb]. exact IH.
+Qed.
+
+Lemma load_times_increasing_lemma : forall bs z,
+  load_bytes bs = OK (Some z) -> times_increasing (zz_tr (abs_zone z)) = true.
+Proof.
+  intros bs z H. pose proof (accept_sorted_lemma _ _ H) as S.
+  unfold table_sorted in S. apply andb_true_iff in S. destruct S as [S _].
+  unfold abs_zone. cbn [zz_tr].
+  exact (times_sorted_increasing (fun tr => off_of z (tr_type tr)) tr_type _ S).
+Qed.
+
+Lemma load_wfz_lemma : forall bs z, load_bytes bs = OK (Some z) ->
+  gaps_wide (zz_doff (abs_zone z)) (zz_tr (abs_zone z)) = true -> wfz (abs_zone z) = true.
+Proof.
+  intros bs z H G. unfold wfz. rewrite (load_times_increasing_lemma _ _ H), G. cbn [andb].
+  destruct (accept_bounds_lemma _ _ H) as [N _].
+  unfold abs_zone. cbn [zz_tr]. destruct (z_trans z); [congruence|reflexivity].
+Qed.
+
+(* ------------------------------------------------------------------ *)
+(* The certificate                                                      *)
+
+Lemma load_establishes_certificate_lemma : forall bs z, load_bytes bs = OK (Some z) ->
+  gaps_wide (zz_doff (abs_zone z)) (zz_tr (abs_zone z)) = true -> zone_ok z = true.
+Proof.
+  intros bs z H G. rewrite zone_ok_split.
+  rewrite (load_establishes_structure_lemma _ _ H), (load_wfz_lemma _ _ H G). reflexivity.
+Qed.
+
+(* ------------------------------------------------------------------ *)
+(* End to end: on every accepted file BreakTime and MakeTime compute the
+   integer-level specification (ZoneZ) - the certificate is discharged by
+   the loader proof instead of being assumed or evaluated *)
+
+Lemma accepted_break_refines_lemma : forall bs z h t, load_bytes bs = OK (Some z) ->
+  gaps_wide (zz_doff (abs_zone z)) (zz_tr (abs_zone z)) = true -> int64 t ->
+  (z_extended z = false \/ (forall l, last_opt (z_trans z) = Some l -> t < tr_time l)) ->
+  exists h' dst ab,
+    break_time z h t = OK (mkAL (civil_of_seconds (t + zoff (abs_zone z) t)) (zoff (abs_zone z) t) dst ab, h')
+    /\ info_of z (zid (abs_zone z) t) = OK (dst, ab).
+Proof.
+  intros bs z h t H G. apply break_refines_lemma.
+  exact (load_establishes_certificate_lemma _ _ H G).
+Qed.
+
+Lemma accepted_make_refines_lemma : forall bs z h cs, load_bytes bs = OK (Some z) ->
+  gaps_wide (zz_doff (abs_zone z)) (zz_tr (abs_zone z)) = true ->
+  valid_fields cs = true -> int64 (fy cs) ->
+  (z_extended z = false \/ fy cs <= z_last_year z) ->
+  exists h', let c := zmake (abs_zone z) (sec_of cs) in
+    make_time z h cs = OK (mkCL (kind_of' (zk c)) (clamp' (zpre c)) (clamp' (ztrans c)) (clamp' (zpost c)), h').
+Proof.
+  intros bs z h cs H G. apply make_refines_lemma.
+  exact (load_establishes_certificate_lemma _ _ H G).
+Qed.
+
+Print Assumptions zone_ok_split.
+Print Assumptions load_establishes_structure_lemma.
+Print Assumptions wide_footer_certified.
+Print Assumptions load_times_increasing_lemma.
+Print Assumptions load_wfz_lemma.
+Print Assumptions load_establishes_certificate_lemma.
+Print Assumptions accepted_break_refines_lemma.
+Print Assumptions accepted_make_refines_lemma.
